@@ -207,6 +207,11 @@ m("C18-i", "C18", "libwallet/src/internal/updater.rs", "\t\t\tif *was_unspent &&
 m("C18-j", "C18", "libwallet/src/internal/updater.rs", "\t\t\t\t&& t.tx_type == TxLogEntryType::TxReceived\n\t\t})\n\t\t.filter_map(", "\t\t\t\t&& t.tx_type != TxLogEntryType::TxSent\n\t\t})\n\t\t.filter_map(", "C18.R4")
 m("C18-k", "C18", "libwallet/src/internal/updater.rs", "\t\t\tif *was_unspent && !api_outputs.contains_key(commit) {", "\t\t\tif *was_unspent || !api_outputs.contains_key(commit) {", "C18.R4")
 
+# ---- from the sixth wave
+m("C16-n", "C16", "libwallet/src/api_impl/owner.rs", "\tupdate_outputs(wallet_inst.clone(), keychain_mask, true)?;\n\tlet tip = {", "\tlet tip = {", "C16.R6")
+m("C08-f", "C08", "libwallet/src/slate_versions/v4_bin.rs", "\t\t\twriter.write_u64(lock_hgt)?;", "\t\t\twriter.write_u64(lock_hgt as u32 as u64)?;", "C08.R8")
+m("C02-k", "C02", "libwallet/src/internal/tx.rs", "\t\tif t.tx_type == TxLogEntryType::TxSent && !is_invoiced {", "\t\tif t.tx_type == TxLogEntryType::TxSent {", "C02.R7")
+
 
 def for_property(prop):
     return [x for x in M if x["property"] == prop]
